@@ -10,23 +10,23 @@ CLAIMED = {
   text="Proof, per function, that every arithmetic, bitwise, shift, extension, truncation, comparison and big-integer conversion member of crab::wrapint equals the operation on mathematical integers reduced modulo 2^w and keeps the representation invariant — for all widths 1..64 and all operands in one query per function — plus (unit wrapped_interval) soundness of the wrapped-interval operations with ghost concrete operands for every operand at each enumerated width. The verified text is clang's lowering of lib/wrapint.cpp / lib/wrapped_interval.cpp of the working tree, re-extracted on every run. Value level only: the variable-level wrapped_interval_domain is not covered.",
   note=TRUST + "models/zmodel.c (z_number as a 128-bit integer; its / and % uninterpreted with sign/magnitude axioms; proved of lib/bignums.cpp against a GMP model under C20), models/qmodel.c. wrapped_interval: proved per enumerated bit width only (widths listed in the evidence), wrapint callees replaced by their (proved) contracts. Not covered: wrapint::hash/write/get_*_str/string constructor, wrapped_interval_domain.hpp."),
  'C08': dict(
-  text="Proof of soundness, with arbitrary ghost concrete operands, of every operation of bound<z>, interval<z>, sign, constant, boolean_value, small_range (and congruence / interval_congruence where their units are enabled), and of exactness (tightness) of interval + - * unary-, join and meet as 'result equals the textbook least interval'. Non-linear facts (monotonicity of * and truncating /) are lemma schemas over the mathematical integers discharged by z3 and cvc5 on every run and used as explicit instances.",
-  note=TRUST + "models/zmodel.c integer model of z_number with inputs bounded by 2^40 (larger magnitudes assumed to behave alike); lemma files lemmas/*.smt2; interval::operator/ recursion assumed to terminate (enforce-contract-rec); interval::Shl proved per shift amount 0..58; q_number instantiations and disjunctive intervals (dis_interval) not covered."),
+  text="Proof of soundness, with arbitrary ghost concrete operands, of every operation of bound<z>, interval<z>, sign, constant, boolean_value, small_range congruence and the interval-congruence reduced product, and of exactness (tightness) of interval + - * unary-, join and meet as 'result equals the textbook least interval'. Non-linear facts (monotonicity of * and truncating /) are lemma schemas over the mathematical integers discharged by z3 and cvc5 on every run and used as explicit instances.",
+  note=TRUST + "models/zmodel.c integer model of z_number with inputs bounded by 2^40 (larger magnitudes assumed to behave alike); lemma files lemmas/*.smt2; interval::operator/ recursion assumed to terminate (enforce-contract-rec); interval::Shl proved per shift amount 0..58; q_number instantiations not covered; disjunctive intervals (dis_interval) only where unit dis_interval is enabled, bounded (<= 2 disjuncts); congruence meet/mul/div/rem/Shl bounded (small moduli)."),
  'C04': dict(
-  text="Proof, for the scalar lattices (interval, sign, constant, boolean_value, small_range; congruence and wrapped_interval where enabled) that <= answers yes on the same object, with bottom on the left and top on the right, that a yes implies inclusion of concretisations (ghost point), that join/meet contain union/intersection, and that is_bottom/is_top agree with bottom()/top(); and for the environment layer (separate_domain, discrete_domain) proof of the bottom/top bookkeeping of <=, ==, |, &, ||, &&, set, at, forget and of the operation objects GIVEN finite-map contracts of the patricia trees.",
+  text="Proof, for the scalar lattices (interval, sign, constant, boolean_value, small_range; congruence and wrapped_interval where enabled) that <= answers yes on the same object, with bottom on the left and top on the right, that a yes implies inclusion of concretisations (ghost point), that join/meet contain union/intersection, and that is_bottom/is_top agree with bottom()/top(); and for the environment layer (separate_domain, discrete_domain) proof of the bottom/top bookkeeping of <=, ==, |, &, ||, &&, set, at, forget and of the operation objects GIVEN finite-map contracts of the patricia trees; plus (unit pttree, BOUNDED) the real tree::compare on small trees.",
   note=TRUST + "The patricia-tree algorithms (insert/remove/merge/compare/lookup) are ASSUMED to implement finite maps (uninterpreted observers); graph domains (split_dbm, split_oct, sparse_dbm), products, powerset are not covered."),
  'C05': dict(
-  text="Operator-level proof: widening of interval / sign / constant / boolean / small_range (and congruence, wrapped_interval, interval with thresholds where enabled) is an upper bound of both arguments, is stationary when the argument is included, and otherwise strictly increases a rank bounded by a constant (interval: number of infinite bounds <= 2), so every widening chain is stationary after finitely many strict steps; narrowing of a decreasing pair keeps every element of its second argument; the separate_domain widening/narrowing operation objects drop/keep bindings as required; (unit fixpo, where enabled) the iterator's extrapolate() applies widening exactly when iteration > widening_delay. Engine-level termination of whole analyses is NOT decided: it is reduced on paper to these operator facts plus the unverified WTO/iterator loop structure.",
-  note=TRUST + "'bounded strictly increasing rank => stationary' is an arithmetic step stated, not machine-checked; graph-domain, powerset, term-domain widenings and inter-procedural recursion widening are not covered."),
+  text="Operator-level proof: widening of interval / sign / constant / boolean / small_range (and congruence, wrapped_interval, interval with thresholds where enabled) is an upper bound of both arguments, is stationary when the argument is included, and otherwise strictly increases a rank bounded by a constant (interval: number of infinite bounds <= 2), so every widening chain is stationary after finitely many strict steps; narrowing of a decreasing pair keeps every element of its second argument; the separate_domain widening/narrowing operation objects drop/keep bindings as required; (unit fixpo) the iterator's extrapolate() applies widening exactly when iteration > widening_delay; (unit fixvisit, BOUNDED) the real wto_iterator::visit(cycle) hands extrapolate the number of times the head has been iterated, on the value the pass was computed from and the join of all predecessors' posts, and leaves the ascending loop only after new_pre <= pre answered yes. Engine-level termination of whole analyses is NOT decided: it is reduced on paper to these facts plus the unverified WTO construction and domain-level widenings outside the scalar abstractions.",
+  note=TRUST + "'bounded strictly increasing rank => stationary' is an arithmetic step stated, not machine-checked; graph-domain, powerset, term-domain widenings and inter-procedural recursion widening are not covered; thresholds: |T| <= 6 (bounded), rational bounds bounded (small numerators/denominators); unit fixvisit is bounded (<= 3 ascending passes, <= 2 descending, <= 2 predecessors, cycle body empty or one vertex) and has no native replay."),
  'C06': dict(
-  text="Second sentence of the property only: proof that interleaved_fwd_fixpoint_iterator::extrapolate returns exactly the JOIN of its arguments (one application, nothing else) while iteration <= widening_delay, and otherwise the widening (or the widening with the thresholds of that loop head when thresholds are enabled), and that refine() applies the meet in the first descending iteration and the narrowing afterwards; the value type is an opaque ghost whose lattice operations are distinct uninterpreted symbols, so 'equal results' means 'this operation, these operands, once'. The first sentence (the iterator returns the exact least solution on finite-height types from any admissible start block) is a statement about wto_iterator::visit and the WTO and is NOT decided.",
-  note=TRUST + "Assumed: unordered_map::find on the thresholds table is a finite-map lookup (model); the table holds an entry for the head when thresholds are on; logging/statistics are effect-free (CrabVerbosity == 0 is a precondition). Not covered: that visit() calls extrapolate with a growing iteration count, the WTO construction, assumption maps, start blocks."),
+  text="Second sentence of the property only: proof that interleaved_fwd_fixpoint_iterator::extrapolate returns exactly the JOIN of its arguments (one application, nothing else) while iteration <= widening_delay, and otherwise the widening (or the widening with the thresholds of that loop head when thresholds are enabled), and that refine() applies the meet in the first descending iteration and the narrowing afterwards; the value type is an opaque ghost whose lattice operations are distinct uninterpreted symbols, so 'equal results' means 'this operation, these operands, once'. Plus (unit fixvisit, BOUNDED, ghost call-order monitor on the real wto_iterator::visit(wto_cycle_t&) / visit(wto_vertex_t&)): extrapolate is called with iteration = 1, 2, ... = the number of times the head has been iterated, only after new_pre <= pre answered no on exactly the values handed over; the first pass starts from the join of exactly the predecessors that are not nested deeper than the head (or the start block's stored value), strengthened by the head's assumption; components are skipped until the start block is met; refine gets iteration 1, 2, ... and at most descending_iterations calls; the stored pre-invariant of the head ends as the post-fixpoint or its last refinement. The first sentence as a whole (the iterator returns the exact least solution on finite-height types) additionally needs the WTO (C07) and is NOT decided.",
+  note=TRUST + "Assumed: unordered_map::find on the thresholds table is a finite-map lookup (model); the table holds an entry for the head when thresholds are on; logging/statistics are effect-free (CrabVerbosity == 0 is a precondition). Unit fixvisit: bounded (loops unwound: <= 3 ascending passes, <= 2 descending, <= 2 predecessors, cycle body empty or one vertex), invariant tables / compute_post / WTO nesting assumed, no native replay. Not covered: the WTO construction, initialize_invariant_tables()/run(), nested cycles, a start block that is itself a loop head (observed to lose the initial value; outside the property as stated)."),
  'C20': dict(
-  text="Proof that every arithmetic / comparison / bitwise / shift / conversion member of ikos::z_number and q_number (lib/bignums.cpp) is the mathematical operation GIVEN GMP's documented behaviour of each __gmpz_*/__gmpq_* entry point it calls (truncating / and %, floor >>, two's-complement bitwise operations on either sign, int64/uint64 conversions in all branches, floor/ceil rounding of rationals, fill_ones with an inductive loop contract), and that crab::safe_i64 (lib/safeint.cpp) returns the exact result whenever it returns and reports overflow exactly when the 128-bit result does not fit; plus (unit lincst, where enabled) constraint negation / tautology / contradiction tests over an abstract valuation.",
+  text="Proof that every arithmetic / comparison / bitwise / shift / conversion member of ikos::z_number and q_number (lib/bignums.cpp) is the mathematical operation GIVEN GMP's documented behaviour of each __gmpz_*/__gmpq_* entry point it calls (truncating / and %, floor >>, two's-complement bitwise operations on either sign, int64/uint64 conversions in all branches, floor/ceil rounding of rationals, fill_ones with an inductive loop contract), and that crab::safe_i64 (lib/safeint.cpp) returns the exact result whenever it returns and reports overflow exactly when the 128-bit result does not fit; plus (unit lincst) constraint negation / tautology / contradiction tests over an abstract valuation, and (bounded, <= 2 terms, real boost flat_map) the evaluation homomorphism of linear_expression sum / difference / scaling / renaming.",
   note=TRUST + "models/gmpmodel.c: GMP entry points modelled with their documented meaning on 2-limb values (|v| < 2^126; products, quotients and rational canonicalisation partly uninterpreted with axioms); magnitudes beyond are assumed to behave alike. Not decided: exact STRING round trips (get_str / string constructors are GMP externals), hash, get_double, linear_constraint_system::normalize. safe_i64 division requires a non-zero divisor."),
  'C19': dict(
-  text="Proof for all 64-bit inputs of the patricia bit kernels (highest_bit with an inductive loop contract, mask, zero_bit, match_prefix, compute_branching_bit) and of the routing lemmas that make insert/lookup/merge route consistently and keep joined nodes well formed (incl. the 2^63 corner), and proof of the separate_domain / discrete_domain / patricia_tree_set glue (set, at, forget, <=, ==, join/meet/widening/narrowing bookkeeping, operation objects, membership, subset) over ASSUMED finite-map contracts of the tree algorithms.",
-  note=TRUST + "The tree algorithms themselves (insert, remove, merge, compare, transform, iteration over shared_ptr nodes with virtual dispatch) are assumed, not verified: a change inside merge/compare that keeps the kernels intact is not detected. project/rename/iteration are not covered."),
+  text="Proof for all 64-bit inputs of the patricia bit kernels (highest_bit with an inductive loop contract, mask, zero_bit, match_prefix, compute_branching_bit) and of the routing lemmas that make insert/lookup/merge route consistently and keep joined nodes well formed (incl. the 2^63 corner), and proof of the separate_domain / discrete_domain / patricia_tree_set glue (set, at, forget, <=, ==, join/meet/widening/narrowing bookkeeping, operation objects, membership, subset) over ASSUMED finite-map contracts of the tree algorithms; plus (unit pttree, BOUNDED) the real tree algorithms insert / lookup / remove / merge_with / leq / transform / iteration run on small trees (<= 2 symbolic-key bindings per tree, keys < 8) against a model map.",
+  note=TRUST + "The tree algorithms (insert, remove, merge, compare, transform, iteration over shared_ptr nodes with virtual dispatch) are assumed in unit sepdom and checked only on small instances in unit pttree (bounded, reference counting not modelled): a change inside merge/compare that needs more than 2 bindings per tree or keys >= 8 to manifest is not detected in the quick tier."),
 }
 # properties whose checks currently pass on the unchanged tree and are therefore claimed
 ENABLED = ['C04', 'C05', 'C06', 'C08', 'C13', 'C19', 'C20']
